@@ -263,8 +263,8 @@ def make_menu(g, tab, item):
   the reduced menu keeps the first query of each group."""
   M = []
 
-  def add(group, recv, op):
-    M.append((group, _q(recv, op)))
+  def add(group, recv, op, kind=None):
+    M.append((group, coarse(kind or group), _q(recv, op)))
 
   G = ["g"]
   add("g.str", G, ["str"])
@@ -374,18 +374,23 @@ def make_menu(g, tab, item):
         dt = l.get_datatype(f) if fk != "undef" else "none"
       except Exception:
         dt = "?"
-      F = "{}{}:{}.".format(P, fk if fk != "pos" else f, dt)
-      add(F + "get", R, ["call", "get", [["lit", f]]])
-      add(F + "try_get", R, ["call", "try_get", [["lit", f]]])
-      add(F + "attr", R, ["attr", f])
-      add(F + "try_get_x", R, ["call", "try_get_" + f, []])
-      add(F + "field_to_s", R, ["call", "field_to_s", [["lit", f]]])
+      F = "{}{}:{}.".format(P, f, dt)
+      KF = "{}{}:{}.".format(P, fk, dt)
+      add(F + "get", R, ["call", "get", [["lit", f]]], KF + "get")
+      add(F + "try_get", R, ["call", "try_get", [["lit", f]]], KF + "try_get")
+      add(F + "attr", R, ["attr", f], KF + "attr")
+      add(F + "try_get_x", R, ["call", "try_get_" + f, []], KF + "try_get_x")
+      add(F + "field_to_s", R, ["call", "field_to_s", [["lit", f]]],
+          KF + "field_to_s")
       add(F + "field_to_s(tag)", R,
-          ["call", "field_to_s", [["lit", f], ["lit", True]]])
-      add(F + "get_datatype", R, ["call", "get_datatype", [["lit", f]]])
-      add(F + "validate_field", R, ["call", "validate_field", [["lit", f]]])
+          ["call", "field_to_s", [["lit", f], ["lit", True]]],
+          KF + "field_to_s(tag)")
+      add(F + "get_datatype", R, ["call", "get_datatype", [["lit", f]]],
+          KF + "get_datatype")
+      add(F + "validate_field", R, ["call", "validate_field", [["lit", f]]],
+          KF + "validate_field")
       if fk in ("pos", "tag"):
-        value_queries(M, F, l, i, f)
+        value_queries(M, F, P, l, i, f)
     # ---- record-type specific --------------------------------------------
     def attrs(lst):
       for a in lst:
@@ -483,7 +488,7 @@ def edge_arg_queries(add, P, R, tab, i, l, others, rt):
           ["call", "is_compatible_complement", args + [["val", j, "overlap"]]])
 
 
-def value_queries(M, F, l, i, f):
+def value_queries(M, F, P, l, i, f):
   """Queries on the value stored in a field (alignment, position, oriented
   identifier, list, JSON)."""
   try:
@@ -493,7 +498,8 @@ def value_queries(M, F, l, i, f):
   V = ["val", i, f]
 
   def add(group, recv, op):
-    M.append((group, _q(recv, op)))
+    # kind: record kind + value type + operation (not the field)
+    M.append((group, coarse(P + "val." + group[len(F):]), _q(recv, op)))
 
   def opname(op):
     return op[0] if op[0] not in ("call", "attr") else op[1]
@@ -540,12 +546,84 @@ def value_queries(M, F, l, i, f):
       add("{}placeholder.{}".format(F, opname(op)), V, op)
 
 
-def reduce_menu(M):
+ONCE_PER_RECORD = ("try_get", "attr", "try_get_x", "field_to_s(tag)",
+                   "get_datatype")
+
+
+def coarse(kind):
+  """Query kind = record kind (virtual lines count with their record type) +
+  operation; field operations are kept per field datatype for get /
+  field_to_s / validate_field and once per record kind otherwise; the alias
+  `name` and an undefined tag count once each."""
+  if kind.startswith("g."):
+    return kind
+  k, _, rest = kind.partition(".")
+  if k.endswith("v") and k not in ("v",):
+    k = k[:-1]
+  head = rest.split(".")[0]
+  if ":" in head and not rest.startswith("val."):
+    fk = head.split(":")[0]
+    m = rest[len(head) + 1:]
+    if fk in ("alias", "undef"):
+      return "{}.{}.{}".format(k, fk, "get" if m == "get" else "other")
+    if m in ONCE_PER_RECORD:
+      return "{}.field.{}".format(k, m)
+  return k + "." + rest
+
+
+G_FAM = set("""g.str g.lines g.dovetails g.names g.n_dovetails g.validate(0)
+g.connected_components(0) g.linear_paths(0) g.to_gfa1_s g.to_gfa2_s
+g.line(name) g.segment(name) g.select(name)
+g.segment_connected_component(name) g.linear_path(name) g.is_cut_segment(name)
+g.is_cut_link(L) g.is_cut_link(E)""".split())
+# one representative per record kind
+LINE_FAM = set("""str clone(0) validate(0)
+dovetails neighbours __str__(True)
+complement() is_canonical() overlap is_complement is_eql
+is_compatible/direct+overlap is_compatible/complement+overlap other_end from_end
+pos captured_path links alignment from_segment induced_set external""".split())
+# one representative per state, whatever the record kind
+ANY_FAM = set("""to_list(0) to_gfa1_s to_gfa2_s ==self ==text diff(self) hash
+field.try_get field.get_datatype""".split())
+VAL_FAM = set("""CIGAR.complement CIGAR.length_on_reference CIGAR.str
+CIGAR.validate LastPos.sub2 ol.inverted Trace.complement
+AlignmentPlaceholder.complement""".split())
+
+
+def family(kind):
+  """Coarse family of a query kind (pair menu of the quick tier and probe set
+  of the thorough tier), or None."""
+  if kind.startswith("g."):
+    if kind in G_FAM:
+      return kind
+    return "g.select(line)" if kind.startswith("g.select(line") else None
+  k, _, rest = kind.partition(".")
+  if rest.startswith("val."):
+    v = rest[4:]
+    if v.startswith("[]."):
+      v = v[3:]
+    return "val." + v if v in VAL_FAM else None
+  head = rest.split(".")[0]
+  if ":" in head:
+    m = rest[len(head) + 1:]
+    if m == "get":
+      return kind                       # one get per (record kind, datatype)
+    if m in ("field_to_s", "validate_field"):
+      return "{}.*.{}".format(k, m)     # one per record kind
+    return None
+  if rest in ANY_FAM:
+    return "line." + rest
+  base = rest.replace("(self)", "").replace("(L)", "")
+  return k + "." + base if base in LINE_FAM else None
+
+
+def first_of(M, keyf):
   seen = set()
   out = []
-  for idx, (grp, q) in enumerate(M):
-    if grp not in seen:
-      seen.add(grp)
+  for idx, (grp, kind, q) in enumerate(M):
+    key = keyf(kind)
+    if key is not None and key not in seen:
+      seen.add(key)
       out.append(idx)
   return out
 
@@ -565,6 +643,13 @@ def recv_kind(q, tab):
     return "?"
 
 
+class Tab(list):
+  """Line table of a replica + {id(line): position}."""
+  def __init__(self, lines):
+    list.__init__(self, lines)
+    self.idx = {id(l): i for i, l in enumerate(lines)}
+
+
 class StateRun:
   def __init__(self, item, res):
     self.item = item
@@ -573,7 +658,7 @@ class StateRun:
 
   def fresh(self):
     g = build(self.item)
-    return g, line_table(g)
+    return g, Tab(line_table(g))
 
   def violation(self, clause, group, seq, expected, observed, effect=""):
     self.nviol += 1
@@ -617,7 +702,7 @@ def rq(g, tab, q):
   termination; a query that exceeds it is reported, C07 owns the cause)."""
   try:
     with guard(5):
-      r = run_query(g, tab, q)
+      r = run_query(g, tab, q, getattr(tab, "idx", None))
   except HarnessTimeout:
     r = None
   if r is None or timed_out():
@@ -632,15 +717,18 @@ def check_state(item):
   return res
 
 
-def _check_state(item, res, only=None):
+def _check_state(item, res):
   run = StateRun(item, res)
+  tier_quick = item.get("tier", "quick") == "quick"
+  chunk = 16 if tier_quick else 1
   try:
     gm, tabm = run.fresh()
   except gfapy.Error as e:
     res["outcomes"].add("build-refused:" + type(e).__name__)
     return
   M = make_menu(gm, tabm, item)
-  red = reduce_menu(M)
+  fams = first_of(M, family)
+  kinds = first_of(M, lambda k: k)
   g, tab = run.fresh()
   o0 = deep_obs(g)
   if deep_obs(g) != o0:
@@ -648,94 +736,161 @@ def _check_state(item, res, only=None):
                   "observation-unstable")
     return
   res["states"].add(h(o0))
-  if len(o0["lines"]) > 1:
+  if len(o0["lines"]) > 0:
     res["nontrivial"].add(h(o0))
   if len(res["samples"]) < 1:
     res["samples"].append({"state": state_label(item), "queries": len(M),
-                           "pair_menu": len(red)})
+                           "kinds": len(kinds), "families": len(fams)})
+
+  def frame_violation(grp, q, oa, ob):
+    eff = effect_of(oa, ob, item)
+    clause, grp_ = "frame", grp
+    if item.get("lazy") and eff == "text" and classify_lazy(item, ob):
+      clause, grp_, eff = "text-normalised-on-read", item["lazy"], ""
+    d = purity.first_diff(oa, ob)
+    run.violation(clause, grp_, [q, q], d.split(" -> ")[0], d, eff)
+
   # ---- phase A: the whole menu on one replica; frame + twice + argument ---
-  rseq = {}
-  for qi, (grp, q) in enumerate(M):
+  rfwd = {}
+  pending = []
+  for qi, (grp, kind, q) in enumerate(M):
     if run.nviol >= MAX_VIOL_PER_STATE:
       break
     r1, a0, a1 = rq(g, tab, q)
     r2, b0, b1 = rq(g, tab, q)
     res["transitions"] += 2
     res["outcomes"].add(outcome_class(q, r1))
-    rseq[qi] = r1
-    if a0 != a1 or b0 != b1:
-      run.violation("argument", grp, [q], a0, a1 if a0 != a1 else b1)
+    rfwd[qi] = r1
     if r1 == ["timeout"] or r2 == ["timeout"]:
       run.violation("timeout", grp, [q], "returns within 5 s", "no answer")
       g, tab = run.fresh()
+      pending = []
       continue
+    if a0 != a1 or b0 != b1:
+      run.violation("argument", grp, [q], a0, a1 if a0 != a1 else b1)
     if r1 != r2:
       run.violation("twice", grp, [q, q], r1, r2)
-    o1 = deep_obs(g)
-    if o1 != o0:
-      eff = effect_of(o0, o1, item)
-      clause = "frame"
-      if item.get("lazy") and eff == "text" and classify_lazy(item, o1):
-        clause = "text-normalised-on-read"
-        grp_ = item["lazy"]
-      else:
-        grp_ = grp
-      run.violation(clause, grp_, [q, q], purity.first_diff(o0, o1).split(
-          " -> ")[0], purity.first_diff(o0, o1), eff if clause == "frame"
-          else "")
-      g, tab = run.fresh()  # do not let one culprit taint the next queries
-      o0 = deep_obs(g)
+    pending.append(qi)
+    if len(pending) >= chunk or qi == len(M) - 1:
+      o1 = deep_obs(g)
+      if o1 != o0:
+        # locate: replay the chunk on a fresh replica, observing every query
+        g, tab = run.fresh()
+        oa = deep_obs(g)
+        located = False
+        for pj in pending:
+          rq(g, tab, M[pj][2])
+          rq(g, tab, M[pj][2])
+          ob = deep_obs(g)
+          if ob != oa:
+            frame_violation(M[pj][0], M[pj][2], oa, ob)
+            located = True
+            g, tab = run.fresh()
+            oa = deep_obs(g)
+        if not located:
+          d = purity.first_diff(o0, o1)
+          run.violation("sequence-frame", M[pending[0]][0],
+                        [M[x][2] for x in range(pending[-1] + 1)],
+                        d.split(" -> ")[0], d, effect_of(o0, o1, item))
+        g, tab = run.fresh()
+        o0 = deep_obs(g)
+      pending = []
   if run.nviol:
     return  # a state with a frame violation is not expanded into pairs
-  # ---- phase B: fresh baselines, sequence and pair clauses ---------------
-  r0 = {}
-  for qi in red:
-    gq, tabq = run.fresh()
-    r0[qi] = rq(gq, tabq, M[qi][1])[0]
+
+  def locate(qi, expected, order):
+    """Which single earlier query of `order` changes the answer of qi?"""
+    for pj in order:
+      if pj == qi:
+        break
+      gp, tabp = run.fresh()
+      rq(gp, tabp, M[pj][2])
+      if rq(gp, tabp, M[qi][2])[0] != expected:
+        return pj
+    return None
+
+  # ---- phase B: the whole menu in reverse order on a second replica -------
+  g2, tab2 = run.fresh()
+  rrev = {}
+  for qi in range(len(M) - 1, -1, -1):
+    rrev[qi] = rq(g2, tab2, M[qi][2])[0]
     res["transitions"] += 1
+  if deep_obs(g2) != o0:
+    d = purity.first_diff(o0, deep_obs(g2))
+    run.violation("sequence-frame", "reverse-menu",
+                  [M[x][2] for x in range(len(M) - 1, -1, -1)],
+                  d.split(" -> ")[0], d, effect_of(o0, deep_obs(g2), item))
+  for qi in range(len(M)):
     res["traces"] += 1
-    if r0[qi] != rseq.get(qi) and run.nviol < MAX_VIOL_PER_STATE:
-      # which earlier query changed the answer?
-      culprit = None
-      for pj in range(qi):
-        gp, tabp = run.fresh()
-        rq(gp, tabp, M[pj][1])
-        if rq(gp, tabp, M[qi][1])[0] != r0[qi]:
-          culprit = pj
-          break
-      if culprit is not None:
-        run.violation("pair", "{} ; {}".format(M[culprit][0], M[qi][0]),
-                      [M[culprit][1], M[qi][1]], r0[qi], rseq.get(qi))
+    if rrev[qi] != rfwd[qi] and run.nviol < MAX_VIOL_PER_STATE:
+      gq, tabq = run.fresh()
+      base = rq(gq, tabq, M[qi][2])[0]
+      if base != rfwd[qi]:
+        order, got = list(range(qi)), rfwd[qi]
+      else:
+        order, got = list(range(len(M) - 1, qi, -1)), rrev[qi]
+      c = locate(qi, base, order)
+      if c is not None:
+        run.violation("pair", "{} ; {}".format(M[c][0], M[qi][0]),
+                      [M[c][2], M[qi][2]], base, got)
       else:
         run.violation("sequence", M[qi][0],
-                      [M[j][1] for j in range(qi + 1)], r0[qi], rseq.get(qi))
-  for q1 in red:
-    if run.nviol >= MAX_VIOL_PER_STATE:
-      break
-    g1, tab1 = run.fresh()
-    rq(g1, tab1, M[q1][1])
-    for q2 in red:
-      r = rq(g1, tab1, M[q2][1])[0]
-      res["transitions"] += 1
-      res["traces"] += 1
-      if r != r0[q2]:
-        gp, tabp = run.fresh()
-        rq(gp, tabp, M[q1][1])
-        rp = rq(gp, tabp, M[q2][1])[0]
-        if rp != r0[q2]:
-          run.violation("pair", "{} ; {}".format(M[q1][0], M[q2][0]),
-                        [M[q1][1], M[q2][1]], r0[q2], rp)
-        else:
-          seq = [M[q1][1]] + [M[x][1] for x in red[:red.index(q2) + 1]]
-          run.violation("sequence", M[q2][0], seq, r0[q2], r)
-        if run.nviol >= MAX_VIOL_PER_STATE:
-          break
-    o1 = deep_obs(g1)
-    if o1 != o0:
-      run.violation("sequence-frame", M[q1][0],
-                    [M[q1][1]] + [M[x][1] for x in red],
-                    purity.first_diff(o0, o1).split(" -> ")[0],
-                    purity.first_diff(o0, o1), effect_of(o0, o1, item))
+                      [M[j][2] for j in order] + [M[qi][2]], base, got)
+  if run.nviol:
+    return
+  # ---- phase C: isolated ordered pairs against fresh baselines ------------
+  if tier_quick:
+    plan = [(fams, fams)]
+  else:
+    plan = [(kinds, fams)]
+  need = sorted(set(x for a, b in plan for x in a + b))
+  r0 = {}
+  for qi in need:
+    gq, tabq = run.fresh()
+    r0[qi] = rq(gq, tabq, M[qi][2])[0]
+    res["transitions"] += 1
+    res["traces"] += 1
+    if r0[qi] != rfwd[qi] and run.nviol < MAX_VIOL_PER_STATE:
+      c = locate(qi, r0[qi], list(range(qi)))
+      if c is not None:
+        run.violation("pair", "{} ; {}".format(M[c][0], M[qi][0]),
+                      [M[c][2], M[qi][2]], r0[qi], rfwd[qi])
+      else:
+        run.violation("sequence", M[qi][0],
+                      [M[j][2] for j in range(qi + 1)], r0[qi], rfwd[qi])
+  done_pairs = set()
+  for firsts, seconds in plan:
+    for q1 in firsts:
+      if run.nviol >= MAX_VIOL_PER_STATE:
+        break
+      todo = [q2 for q2 in seconds if (q1, q2) not in done_pairs]
+      if not todo:
+        continue
+      g1, tab1 = run.fresh()
+      rq(g1, tab1, M[q1][2])
+      for q2 in todo:
+        done_pairs.add((q1, q2))
+        r = rq(g1, tab1, M[q2][2])[0]
+        res["transitions"] += 1
+        res["traces"] += 1
+        if r != r0[q2]:
+          gp, tabp = run.fresh()
+          rq(gp, tabp, M[q1][2])
+          rp = rq(gp, tabp, M[q2][2])[0]
+          if rp != r0[q2]:
+            run.violation("pair", "{} ; {}".format(M[q1][0], M[q2][0]),
+                          [M[q1][2], M[q2][2]], r0[q2], rp)
+          else:
+            seq = [M[q1][2]] + [M[x][2] for x in todo[:todo.index(q2) + 1]]
+            run.violation("sequence", M[q2][0], seq, r0[q2], r)
+          if run.nviol >= MAX_VIOL_PER_STATE:
+            break
+      o1 = deep_obs(g1)
+      if o1 != o0:
+        d = purity.first_diff(o0, o1)
+        run.violation("sequence-frame", M[q1][0],
+                      [M[q1][2]] + [M[x][2] for x in todo],
+                      d.split(" -> ")[0], d, effect_of(o0, o1, item))
 
 
 def state_label(item):
@@ -898,6 +1053,8 @@ def run(ctx):
   docs = doc_items(ctx.quick)
   done["documents"] = len(docs)
   items += docs
+  for it in items:
+    it["tier"] = ctx.tier
   vals = value_corpus(ctx.quick)
   done["values"] = len(vals)
   ctx.alphabet = {
